@@ -144,7 +144,7 @@ def gen_cli_case(rnd, i):
     srcdir = rnd.choice(["", "", "sub", "a/b"])
     directives = []
     opts = []
-    mode = rnd.choice(["o", "o", "implicit", "dir", "dir", "dir", "o+dir", "implicit+dir", "none"])
+    mode = rnd.choice(["o", "o", "implicit", "dir", "dir", "dir", "o+dir", "implicit+dir", "none", "o+implicit", "o+implicit+dir"])
     if "dir" in mode:
         for _ in range(rnd.choice([1, 1, 1, 2, 3])):
             d = rnd.choice(["make_bin", "make_raw", "make_wav", "make_turbo_wav", "make_bk0010_rom", "make_wav", "make_turbo_wav"])
@@ -168,6 +168,9 @@ def gen_cli_case(rnd, i):
         opts = ["-o", {"plain": fn, "subdir": "out/" + fn, "abs": "@ABS@/" + fn}[form]]
     if mode.startswith("implicit"):
         opts = ["--implicit-bin"]
+    if mode.startswith("o+implicit"):
+        # both selectors: the -o target is a requested output in any case; the implicit one beside it is not judged
+        opts = opts + ["--implicit-bin"]
     return {"kind": "cli", "base": base, "image": img.hex(), "src": stem + suffix, "srcdir": srcdir, "directives": directives,
             "opts": opts, "where": rnd.choice(["top", "bottom", "middle"]), "quote": rnd.choice("\"'/")}
 
@@ -341,6 +344,9 @@ def run_case(case, cnt=None):
             viol(f"{label}: valid program with valid output selectors failed: exit {r['exit']}, events {r['events'][:3]}, stderr {r['stderr'][-300:]!r}")
             return out
         want = set(targets)
+        if opts[:1] == ["-o"] and "--implicit-bin" in opts:
+            stem = src_path[:-4] if src_path.lower().endswith(".mac") else src_path
+            created.discard(stem + ".bin") if (stem + ".bin") not in want else None
         if created != want:
             viol(f"{label}: files written {sorted(os.path.relpath(p, root) for p in created)} != files requested {sorted(os.path.relpath(p, root) for p in want)}")
         dup = len(set(targets)) != n_req
